@@ -228,7 +228,7 @@ impl Property for C09 {
         // wake-up held back (see `wake_plans`)
         if index % 3 == 0 {
             let n = match tier {
-                Tier::Quick => 6,
+                Tier::Quick => 4,
                 Tier::Thorough => 12,
             };
             c.meta.insert("wake_plans".into(), serde_json::json!(n));
